@@ -300,6 +300,114 @@ Section Proofs.
       exists t0, t1. repeat split; try assumption; eapply time_limit_step; eassumption.
   Qed.
 
+  (* ---- an expired time limit stays expired, however long the clock runs on ---- *)
+
+  Lemma lifetime_limit_step :
+    forall cfg s t0 l, ph s = Active -> started_at s = Some t0 ->
+      max_lifetime cfg = Some l -> l <> 0 -> l <= now s - t0 ->
+      ph (sstate cfg s CheckTimeouts) = Senescent /\ sout cfg s CheckTimeouts = Ret (RBool false).
+  Proof.
+    intros cfg [p ln n e r sr sa la t] t0 l Hp H0 E Hz Hle. cbn in Hp, H0, Hle. subst p sa.
+    unfold_step. rewrite E.
+    replace (negb (l =? 0) && (l <=? t - t0)) with true by lia. cbn. auto.
+  Qed.
+
+  Lemma idle_limit_step :
+    forall cfg s t1 l, ph s = Active -> last_activity s = Some t1 ->
+      idle_timeout cfg = Some l -> l <> 0 -> l <= now s - t1 ->
+      ph (sstate cfg s CheckTimeouts) = Senescent /\ sout cfg s CheckTimeouts = Ret (RBool false).
+  Proof.
+    intros cfg [p ln n e r sr sa la t] t1 l Hp H1 E Hz Hle. cbn in Hp, H1, Hle. subst p la.
+    unfold_step. rewrite E.
+    replace (negb (l =? 0) && (l <=? t - t1)) with true by lia.
+    split_ifs; cbn in *; try discriminate; auto.
+  Qed.
+
+  (* the start time of a started lifecycle is only forgotten by reset, and
+     the clock only moves forward *)
+  Lemma started_step :
+    forall cfg s o t0, ph s <> Nascent -> started_at s = Some t0 -> o <> Reset -> forward_op o ->
+      ph (sstate cfg s o) <> Nascent /\ started_at (sstate cfg s o) = Some t0 /\
+      now s <= now (sstate cfg s o).
+  Proof.
+    intros cfg [p ln n e r sr sa la t] o t0 Hp H0 Ho Hf. cbn in Hp, H0. subst sa.
+    destruct o; try (exfalso; apply Ho; reflexivity); destruct p; try (exfalso; apply Hp; reflexivity);
+      cbn [forward_op] in Hf; unfold_step; split_ifs;
+      cbn [ph started_at now fst snd]; repeat split; try congruence; lia.
+  Qed.
+
+  Lemma started_exec :
+    forall cfg ops s t0, ph s <> Nascent -> started_at s = Some t0 ->
+      ~ In Reset ops -> Forall forward_op ops ->
+      ph (execc cfg s ops) <> Nascent /\ started_at (execc cfg s ops) = Some t0 /\
+      now s <= now (execc cfg s ops).
+  Proof.
+    intros cfg ops; induction ops as [|o rest IH]; intros s t0 Hp H0 Hn Hf; cbn [exec].
+    - repeat split; try assumption; lia.
+    - inversion Hf as [|? ? Hfo Hfr]; subst.
+      destruct (started_step cfg s o t0 Hp H0) as (Hp' & H0' & Hle); [intro E; apply Hn; left; auto|exact Hfo|].
+      destruct (IH (sstate cfg s o) t0 Hp' H0') as (A & B & C); [intro Hin; apply Hn; right; exact Hin|exact Hfr|].
+      repeat split; try assumption; lia.
+  Qed.
+
+  Lemma lifetime_expiry_permanent_proof :
+    forall cfg ops s t0 l,
+      ph s <> Nascent -> started_at s = Some t0 ->
+      max_lifetime cfg = Some l -> l <> 0 -> l <= now s - t0 ->
+      ~ In Reset ops -> Forall forward_op ops ->
+      l <= now (execc cfg s ops) - t0 /\ started_at (execc cfg s ops) = Some t0 /\
+      (ph (execc cfg s ops) = Active ->
+       ph (sstate cfg (execc cfg s ops) CheckTimeouts) = Senescent /\
+       sout cfg (execc cfg s ops) CheckTimeouts = Ret (RBool false)).
+  Proof.
+    intros cfg ops s t0 l Hp H0 E Hz Hle Hn Hf.
+    destruct (started_exec cfg ops s t0 Hp H0 Hn Hf) as (_ & B & C).
+    assert (Hle' : l <= now (execc cfg s ops) - t0) by lia.
+    repeat split; try assumption; eapply lifetime_limit_step; eassumption.
+  Qed.
+
+  (* the last-activity time is refreshed only by tick / heartbeat (and start
+     of a NASCENT lifecycle), forgotten only by reset *)
+  Lemma quiet_step :
+    forall cfg s o t1, ph s <> Nascent -> last_activity s = Some t1 -> quiet_op o ->
+      ph (sstate cfg s o) <> Nascent /\ last_activity (sstate cfg s o) = Some t1 /\
+      now s <= now (sstate cfg s o).
+  Proof.
+    intros cfg [p ln n e r sr sa la t] o t1 Hp H1 Hq. cbn in Hp, H1. subst la.
+    destruct o; cbn [quiet_op] in Hq; try contradiction; destruct p; try (exfalso; apply Hp; reflexivity);
+      unfold_step; split_ifs;
+      cbn [ph last_activity now fst snd]; repeat split; try congruence; lia.
+  Qed.
+
+  Lemma quiet_exec :
+    forall cfg ops s t1, ph s <> Nascent -> last_activity s = Some t1 -> Forall quiet_op ops ->
+      ph (execc cfg s ops) <> Nascent /\ last_activity (execc cfg s ops) = Some t1 /\
+      now s <= now (execc cfg s ops).
+  Proof.
+    intros cfg ops; induction ops as [|o rest IH]; intros s t1 Hp H1 Hq; cbn [exec].
+    - repeat split; try assumption; lia.
+    - inversion Hq as [|? ? Hqo Hqr]; subst.
+      destruct (quiet_step cfg s o t1 Hp H1 Hqo) as (Hp' & H1' & Hle).
+      destruct (IH (sstate cfg s o) t1 Hp' H1' Hqr) as (A & B & C).
+      repeat split; try assumption; lia.
+  Qed.
+
+  Lemma idle_expiry_persists_proof :
+    forall cfg ops s t1 l,
+      ph s <> Nascent -> last_activity s = Some t1 ->
+      idle_timeout cfg = Some l -> l <> 0 -> l <= now s - t1 ->
+      Forall quiet_op ops ->
+      l <= now (execc cfg s ops) - t1 /\ last_activity (execc cfg s ops) = Some t1 /\
+      (ph (execc cfg s ops) = Active ->
+       ph (sstate cfg (execc cfg s ops) CheckTimeouts) = Senescent /\
+       sout cfg (execc cfg s ops) CheckTimeouts = Ret (RBool false)).
+  Proof.
+    intros cfg ops s t1 l Hp H1 E Hz Hle Hq.
+    destruct (quiet_exec cfg ops s t1 Hp H1 Hq) as (_ & B & C).
+    assert (Hle' : l <= now (execc cfg s ops) - t1) by lia.
+    repeat split; try assumption; eapply idle_limit_step; eassumption.
+  Qed.
+
   (* a tick that exhausts the telomere leaves an active lifecycle senescent *)
   Lemma depletion_forces_senescence_proof :
     forall cfg s c, ph s = Active \/ ph s = Nascent -> len s - c <= 0 ->
